@@ -12,11 +12,17 @@ import (
 // as terms of a small closed statement language.  Model/C06_Skel.v interprets them and
 // Proof/C06_Skel.v proves the interpretation equal to the hand model.  Every statement or
 // expression outside the shapes listed here fails closed.
-const cycleVisitTypes = `From Coq Require Import List Bool. Import ListNotations.
-(* the two map[*BuildTarget]struct{} sets *)
+const cycleVisitTypes = `(* the two map[*BuildTarget]struct{} sets *)
 Inductive setname := SPartial | SComplete.
+(* the flags of a depInfo that an accessor of target.dependencies may test *)
+Inductive depflag := FSource | FInternal | FRuntime | FData.
+(* the accessor the dependency loop of visit ranges over *)
+Inductive depsrc :=
+| DepsAll                       (* target.Dependencies() *)
+| DepsBuild.                    (* target.BuildDependencies() *)
 Inductive cond :=
 | CStopped                      (* c.stopped *)
+| CStateGe (s : gstate)         (* target.State() >= s *)
 | CIn (s : setname)             (* _, present := s[target]; present *)
 | CDone                         (* done *)
 | CTargetIsLast                 (* target == cycle[len(cycle)-1] *)
@@ -35,14 +41,19 @@ Inductive istmt :=
 | IRet (k : cyc) (done : bool).              (* return k, done *)
 Inductive stmt :=
 | SIf (c : cond) (k : cyc) (done : bool)     (* if c { return k, done }   (also each arm of an if/else-if chain) *)
+| SIfAddRet (c : cond) (adds : list setname) (k : cyc) (done : bool)   (* if c { s[target] = struct{}{} for s in adds; return k, done } *)
 | SAdd (s : setname)                         (* s[target] = struct{}{} *)
 | SDel (s : setname)                         (* delete(s, target) *)
-| SRange (inner : list istmt)                (* for _, dep := range target.Dependencies() { if cycle, done := visit(dep); cycle != nil { inner } } *)
+| SRange (src : depsrc) (inner : list istmt) (* for _, dep := range target.<src>() { if cycle, done := visit(dep); cycle != nil { inner } } *)
 | SRet (k : cyc) (done : bool).              (* return k, done *)
+(* what Check puts into errCycle.Cycle *)
+Inductive report :=
+| RCycle                        (* cycle, as visit returned it *)
+| RThrough.                     (* f(cycle) for some other function f: not the slice visit returned *)
 (* inside for _, target := range c.graph.AllTargets() { ... } *)
 Inductive lstmt :=
 | LIfRetNil (c : cond)                       (* if c { return nil } *)
-| LIfVisit (c : cond).                       (* if c { if cycle, _ := visit(target); cycle != nil { return &errCycle{Cycle: cycle} } } *)
+| LIfVisit (c : cond) (r : report).          (* if c { if cycle, _ := visit(target); cycle != nil { return &errCycle{Cycle: r} } } *)
 (* the fields of type cycleDetector: everything one detector can carry from one Check to the next *)
 Inductive dfield :=
 | DGraph                        (* graph *BuildGraph *)
@@ -128,6 +139,7 @@ type cvNames struct {
 	present  string            // bound by the init statement of the enclosing if, "" when none
 	presentS string            // the set it was looked up in
 	sets     map[string]string // Go variable -> SPartial / SComplete
+	states   map[string]bool   // the BuildTargetState constants
 }
 
 func cvIsIdent(e ast.Expr, name string) bool {
@@ -183,6 +195,14 @@ func cvCond(fset *token.FileSet, nm *cvNames, e ast.Expr) string {
 		}
 	case *ast.BinaryExpr:
 		switch x.Op {
+		case token.GEQ: // target.State() >= X
+			if call, ok := x.X.(*ast.CallExpr); ok && len(call.Args) == 0 {
+				if sel, ok := call.Fun.(*ast.SelectorExpr); ok && cvIsIdent(sel.X, nm.target) && sel.Sel.Name == "State" {
+					if id, ok := x.Y.(*ast.Ident); ok && nm.states[id.Name] {
+						return "(CStateGe G_" + id.Name + ")"
+					}
+				}
+			}
 		case token.LOR:
 			return "(COr " + cvCond(fset, nm, x.X) + " " + cvCond(fset, nm, x.Y) + ")"
 		case token.LAND:
@@ -277,21 +297,61 @@ func cvPresentInit(fset *token.FileSet, nm *cvNames, init ast.Stmt) {
 	failShape("%s: init statement of if is not `_, present := set[target]`", cvPos(fset, init))
 }
 
-// cvIfReturn: `if [init;] cond { return k, d }` -> (cond, k, d). The body must be that single return.
-func cvIfReturn(fset *token.FileSet, nm *cvNames, s *ast.IfStmt) (string, string, string) {
+// cvSetAdd recognises `set[target] = struct{}{}` and returns the set.
+func cvSetAdd(nm *cvNames, x *ast.AssignStmt) (string, bool) {
+	ok := x.Tok == token.ASSIGN && len(x.Lhs) == 1 && len(x.Rhs) == 1
+	var set string
+	if ok {
+		ix, isIx := x.Lhs[0].(*ast.IndexExpr)
+		ok = isIx && cvIsIdent(ix.Index, nm.target)
+		if ok {
+			m, isId := ix.X.(*ast.Ident)
+			ok = isId && nm.sets[m.Name] != ""
+			if ok {
+				set = nm.sets[m.Name]
+			}
+		}
+	}
+	if ok {
+		cl, isCl := x.Rhs[0].(*ast.CompositeLit)
+		ok = isCl && len(cl.Elts) == 0
+		if ok {
+			stt, isSt := cl.Type.(*ast.StructType)
+			ok = isSt && (stt.Fields == nil || len(stt.Fields.List) == 0)
+		}
+	}
+	return set, ok
+}
+
+// cvIfReturn: `if [init;] cond { [set[target] = struct{}{};]* return k, d }` -> (cond, adds, k, d).
+// The body must be that return, preceded by nothing but additions to the sets (allowed only where
+// allowAdds is set: the arms of the if chain at the top of visit).
+func cvIfReturn(fset *token.FileSet, nm *cvNames, s *ast.IfStmt, allowAdds bool) (string, []string, string, string) {
 	cvPresentInit(fset, nm, s.Init)
 	c := cvCond(fset, nm, s.Cond)
 	nm.present, nm.presentS = "", ""
 	body := cvStmts(s.Body)
-	if len(body) != 1 {
+	if len(body) == 0 {
 		failShape("%s: if body is not a single return", cvPos(fset, s))
 	}
-	r, ok := body[0].(*ast.ReturnStmt)
+	adds := []string{}
+	for _, b := range body[:len(body)-1] {
+		as, isAs := b.(*ast.AssignStmt)
+		if !isAs || !allowAdds {
+			failShape("%s: if body is not a single return", cvPos(fset, s))
+		}
+		set, ok := cvSetAdd(nm, as)
+		if !ok {
+			failShape("%s: statement before the return is not `set[target] = struct{}{}`", cvPos(fset, b))
+		}
+		adds = append(adds, set)
+	}
+	r, ok := body[len(body)-1].(*ast.ReturnStmt)
 	if !ok {
-		failShape("%s: if body is not a single return", cvPos(fset, s))
+		failShape("%s: if body does not end in a return", cvPos(fset, s))
 	}
 	k, d := cvReturn(fset, nm, r)
-	return c, k, d
+	return c, adds, k, d
 }
 
 func cvInner(fset *token.FileSet, nm *cvNames, b *ast.BlockStmt) string {
@@ -303,7 +363,7 @@ func cvInner(fset *token.FileSet, nm *cvNames, b *ast.BlockStmt) string {
 			if x.Else != nil {
 				failShape("%s: else inside the cycle != nil block", cvPos(fset, x))
 			}
-			c, k, d := cvIfReturn(fset, nm, x)
+			c, _, k, d := cvIfReturn(fset, nm, x, false)
 			items = append(items, fmt.Sprintf("IIf %s %s %s", c, k, d))
 		case *ast.ReturnStmt:
 			if i != len(body)-1 {
@@ -361,8 +421,12 @@ func cvVisitBody(fset *token.FileSet, nm *cvNames, visit string, b *ast.BlockStm
 		switch x := s.(type) {
 		case *ast.IfStmt: // an if / else-if chain whose arms all return
 			for cur := x; cur != nil; {
-				c, k, d := cvIfReturn(fset, nm, cur)
-				items = append(items, fmt.Sprintf("SIf %s %s %s", c, k, d))
+				c, adds, k, d := cvIfReturn(fset, nm, cur, true)
+				if len(adds) == 0 {
+					items = append(items, fmt.Sprintf("SIf %s %s %s", c, k, d))
+				} else {
+					items = append(items, fmt.Sprintf("SIfAddRet %s [%s] %s %s", c, strings.Join(adds, "; "), k, d))
+				}
 				switch e := cur.Else.(type) {
 				case nil:
 					cur = nil
@@ -373,27 +437,7 @@ func cvVisitBody(fset *token.FileSet, nm *cvNames, visit string, b *ast.BlockStm
 				}
 			}
 		case *ast.AssignStmt: // set[target] = struct{}{}
-			ok := x.Tok == token.ASSIGN && len(x.Lhs) == 1 && len(x.Rhs) == 1
-			var set string
-			if ok {
-				ix, isIx := x.Lhs[0].(*ast.IndexExpr)
-				ok = isIx && cvIsIdent(ix.Index, nm.target)
-				if ok {
-					m, isId := ix.X.(*ast.Ident)
-					ok = isId && nm.sets[m.Name] != ""
-					if ok {
-						set = nm.sets[m.Name]
-					}
-				}
-			}
-			if ok {
-				cl, isCl := x.Rhs[0].(*ast.CompositeLit)
-				ok = isCl && len(cl.Elts) == 0
-				if ok {
-					stt, isSt := cl.Type.(*ast.StructType)
-					ok = isSt && (stt.Fields == nil || len(stt.Fields.List) == 0)
-				}
-			}
+			set, ok := cvSetAdd(nm, x)
 			if !ok {
 				failShape("%s: assignment is not `set[target] = struct{}{}`", cvPos(fset, x))
 			}
@@ -417,12 +461,23 @@ func cvVisitBody(fset *token.FileSet, nm *cvNames, visit string, b *ast.BlockStm
 				failShape("%s: range value is not a name", cvPos(fset, x))
 			}
 			call, ok := x.X.(*ast.CallExpr)
+			src := ""
 			if ok {
 				sel, isSel := call.Fun.(*ast.SelectorExpr)
-				ok = isSel && cvIsIdent(sel.X, nm.target) && sel.Sel.Name == "Dependencies" && len(call.Args) == 0
+				ok = isSel && cvIsIdent(sel.X, nm.target) && len(call.Args) == 0
+				if ok {
+					switch sel.Sel.Name {
+					case "Dependencies":
+						src = "DepsAll"
+					case "BuildDependencies":
+						src = "DepsBuild"
+					default:
+						ok = false
+					}
+				}
 			}
 			if !ok {
-				failShape("%s: range is not over target.Dependencies()", cvPos(fset, x))
+				failShape("%s: range is not over target.Dependencies() or target.BuildDependencies()", cvPos(fset, x))
 			}
 			nm.dep = dep.Name
 			rb := cvStmts(x.Body)
@@ -433,7 +488,7 @@ func cvVisitBody(fset *token.FileSet, nm *cvNames, visit string, b *ast.BlockStm
 			if nm.done == "" {
 				failShape("%s: the done result of the recursive visit is discarded", cvPos(fset, ifs))
 			}
-			items = append(items, "SRange "+cvInner(fset, nm, ifs.Body))
+			items = append(items, "SRange "+src+" "+cvInner(fset, nm, ifs.Body))
 			nm.cycle, nm.done = "", ""
 		case *ast.ReturnStmt:
 			if i != len(body)-1 {
@@ -475,8 +530,148 @@ func cvIsEmptyMapOfTargets(e ast.Expr) bool {
 	return ok && (vt.Fields == nil || len(vt.Fields.List) == 0)
 }
 
+// cvAccessorExcl translates an accessor of target.dependencies (Dependencies, BuildDependencies):
+//
+//	lock; ret := make(...); for _, deps := range target.dependencies { [if !deps.f1 && !deps.f2 ... {] for _, dep := range deps.deps { ret = append(ret, dep) } [}] }; sort.Sort(ret); return ret
+//
+// into the list of depInfo flags that exclude an entry. Anything else fails closed.
+func cvAccessorExcl(fset *token.FileSet, f *ast.File, name string) string {
+	fd := findFunc(f, "BuildTarget", name)
+	if len(fd.Recv.List[0].Names) != 1 {
+		failShape("%s: receiver is not named", name)
+	}
+	recv := fd.Recv.List[0].Names[0].Name
+	isMutexCall := func(e ast.Expr) bool {
+		call, ok := e.(*ast.CallExpr)
+		if !ok || len(call.Args) != 0 {
+			return false
+		}
+		sel, ok := call.Fun.(*ast.SelectorExpr)
+		if !ok || (sel.Sel.Name != "RLock" && sel.Sel.Name != "RUnlock") {
+			return false
+		}
+		m, ok := sel.X.(*ast.SelectorExpr)
+		return ok && cvIsIdent(m.X, recv) && m.Sel.Name == "mutex"
+	}
+	var loop *ast.RangeStmt
+	ret := ""
+	sorted, returned := false, false
+	for _, st := range fd.Body.List {
+		switch x := st.(type) {
+		case *ast.ExprStmt:
+			if isMutexCall(x.X) {
+				continue
+			}
+			if call, ok := x.X.(*ast.CallExpr); ok && len(call.Args) == 1 && ret != "" && cvIsIdent(call.Args[0], ret) && loop != nil && !sorted {
+				if sel, ok := call.Fun.(*ast.SelectorExpr); ok && cvIsIdent(sel.X, "sort") && sel.Sel.Name == "Sort" {
+					sorted = true
+					continue
+				}
+			}
+		case *ast.DeferStmt:
+			if isMutexCall(x.Call) {
+				continue
+			}
+		case *ast.AssignStmt: // ret := make(BuildTargets, 0, ...)
+			if x.Tok == token.DEFINE && len(x.Lhs) == 1 && len(x.Rhs) == 1 && ret == "" && loop == nil {
+				if call, ok := x.Rhs[0].(*ast.CallExpr); ok && cvIsIdent(call.Fun, "make") && len(call.Args) == 3 && cvIsIdent(call.Args[0], "BuildTargets") {
+					if bl, ok := call.Args[1].(*ast.BasicLit); ok && bl.Value == "0" {
+						ret = x.Lhs[0].(*ast.Ident).Name
+						continue
+					}
+				}
+			}
+		case *ast.RangeStmt:
+			if loop == nil && ret != "" {
+				loop = x
+				continue
+			}
+		case *ast.ReturnStmt:
+			if len(x.Results) == 1 && ret != "" && cvIsIdent(x.Results[0], ret) && sorted {
+				returned = true
+				continue
+			}
+		}
+		failShape("%s: statement of BuildTarget.%s not recognised", cvPos(fset, st), name)
+	}
+	if loop == nil || !sorted || !returned {
+		failShape("BuildTarget.%s: not `ret := make; for range target.dependencies {...}; sort.Sort(ret); return ret`", name)
+	}
+	sel, ok := loop.X.(*ast.SelectorExpr)
+	if !ok || !cvIsIdent(sel.X, recv) || sel.Sel.Name != "dependencies" || loop.Tok != token.DEFINE || !cvIsIdent(loop.Key, "_") || loop.Value == nil {
+		failShape("%s: BuildTarget.%s does not range `_, deps := range %s.dependencies`", cvPos(fset, loop), name, recv)
+	}
+	info := loop.Value.(*ast.Ident).Name
+	if len(loop.Body.List) != 1 {
+		failShape("%s: body of the loop of BuildTarget.%s is not a single statement", cvPos(fset, loop), name)
+	}
+	excl := []string{}
+	inner := loop.Body.List[0]
+	if ifs, ok := inner.(*ast.IfStmt); ok {
+		if ifs.Init != nil || ifs.Else != nil || len(ifs.Body.List) != 1 {
+			failShape("%s: filter of BuildTarget.%s is not `if cond { for ... }`", cvPos(fset, ifs), name)
+		}
+		var conj func(e ast.Expr)
+		conj = func(e ast.Expr) {
+			switch c := e.(type) {
+			case *ast.ParenExpr:
+				conj(c.X)
+				return
+			case *ast.BinaryExpr:
+				if c.Op == token.LAND {
+					conj(c.X)
+					conj(c.Y)
+					return
+				}
+			case *ast.UnaryExpr:
+				if fs, ok := c.X.(*ast.SelectorExpr); ok && c.Op == token.NOT && cvIsIdent(fs.X, info) {
+					switch fs.Sel.Name {
+					case "source":
+						excl = append(excl, "FSource")
+						return
+					case "internal":
+						excl = append(excl, "FInternal")
+						return
+					case "runtime":
+						excl = append(excl, "FRuntime")
+						return
+					case "data":
+						excl = append(excl, "FData")
+						return
+					}
+				}
+			}
+			failShape("%s: filter of BuildTarget.%s is not a conjunction of !%s.<source|internal|runtime|data>", cvPos(fset, e), name, info)
+		}
+		conj(ifs.Cond)
+		inner = ifs.Body.List[0]
+	}
+	rs, ok := inner.(*ast.RangeStmt)
+	if ok {
+		ds, isSel := rs.X.(*ast.SelectorExpr)
+		ok = isSel && cvIsIdent(ds.X, info) && ds.Sel.Name == "deps" && rs.Tok == token.DEFINE && cvIsIdent(rs.Key, "_") && rs.Value != nil && len(rs.Body.List) == 1
+		if ok {
+			as, isAs := rs.Body.List[0].(*ast.AssignStmt)
+			ok = isAs && as.Tok == token.ASSIGN && len(as.Lhs) == 1 && len(as.Rhs) == 1 && cvIsIdent(as.Lhs[0], ret)
+			if ok {
+				call, isCall := as.Rhs[0].(*ast.CallExpr)
+				ok = isCall && cvIsIdent(call.Fun, "append") && len(call.Args) == 2 && call.Ellipsis == token.NoPos &&
+					cvIsIdent(call.Args[0], ret) && cvIsIdent(call.Args[1], rs.Value.(*ast.Ident).Name)
+			}
+		}
+	}
+	if !ok {
+		failShape("%s: BuildTarget.%s does not collect with `for _, dep := range %s.deps { %s = append(%s, dep) }`", cvPos(fset, inner), name, info, ret, ret)
+	}
+	return "[" + strings.Join(excl, "; ") + "]"
+}
+
 func init() {
 	targets["CycleVisit"] = func() string {
+		fsetBT, bt := parseFile("src/core/build_target.go")
+		stateNames := iotaConsts(bt, "BuildTargetState")
+		depsExcl := cvAccessorExcl(fsetBT, bt, "Dependencies")
+		buildDepsExcl := cvAccessorExcl(fsetBT, bt, "BuildDependencies")
 		fset, f := parseFile("src/core/cycle_detector.go")
 		fd := findFunc(f, "cycleDetector", "Check")
 		detectorFields := cvDetectorFields(fset, f)
@@ -484,7 +679,10 @@ func init() {
 		if len(fd.Recv.List[0].Names) != 1 {
 			failShape("Check: receiver is not named")
 		}
-		nm := &cvNames{recv: fd.Recv.List[0].Names[0].Name, sets: map[string]string{}}
+		nm := &cvNames{recv: fd.Recv.List[0].Names[0].Name, sets: map[string]string{}, states: map[string]bool{}}
+		for _, n := range stateNames {
+			nm.states[n] = true
+		}
 		body := cvStmts(fd.Body)
 		prologue := []string{}
 		var visitBody, loopBody string
@@ -592,6 +790,7 @@ func init() {
 			vi := cvVisitCallIf(fset, nm, inner[0], nm.target, visitName)
 			vb := cvStmts(vi.Body)
 			okRet := len(vb) == 1
+			report := ""
 			if okRet {
 				r, isR := vb[0].(*ast.ReturnStmt)
 				okRet = isR && len(r.Results) == 1
@@ -603,16 +802,26 @@ func init() {
 						okRet = isCl && cvIsIdent(cl.Type, "errCycle") && len(cl.Elts) == 1
 						if okRet {
 							kv, isKV := cl.Elts[0].(*ast.KeyValueExpr)
-							okRet = isKV && cvIsIdent(kv.Key, "Cycle") && cvIsIdent(kv.Value, nm.cycle)
+							okRet = isKV && cvIsIdent(kv.Key, "Cycle")
+							if okRet {
+								if cvIsIdent(kv.Value, nm.cycle) {
+									report = "RCycle"
+								} else if fc, isCall := kv.Value.(*ast.CallExpr); isCall && len(fc.Args) == 1 && cvIsIdent(fc.Args[0], nm.cycle) && fc.Ellipsis == token.NoPos {
+									if _, isName := fc.Fun.(*ast.Ident); isName {
+										report = "RThrough" // some function of the slice visit returned
+									}
+								}
+								okRet = report != ""
+							}
 						}
 					}
 				}
 			}
 			if !okRet {
-				failShape("%s: expected `return &errCycle{Cycle: %s}`", cvPos(fset, vi), nm.cycle)
+				failShape("%s: expected `return &errCycle{Cycle: %s}` or `Cycle: f(%s)`", cvPos(fset, vi), nm.cycle, nm.cycle)
 			}
 			nm.cycle, nm.done = "", ""
-			items = append(items, "LIfVisit "+c)
+			items = append(items, "LIfVisit "+c+" "+report)
 		}
 		loopBody = "[" + strings.Join(items, "; ") + "]"
 		i++
@@ -622,7 +831,21 @@ func init() {
 		if r, ok := body[i].(*ast.ReturnStmt); !ok || len(r.Results) != 1 || !cvIsIdent(r.Results[0], "nil") {
 			failShape("%s: Check does not end in `return nil`", cvPos(fset, body[i]))
 		}
-		return cycleVisitTypes +
+		gnames := make([]string, len(stateNames))
+		ranks := make([]string, len(stateNames))
+		for i, n := range stateNames {
+			gnames[i] = "G_" + n
+			ranks[i] = fmt.Sprintf("  | G_%s => %d", n, i)
+		}
+		stateDefs := "From Coq Require Import List Bool NArith. Import ListNotations.\n" +
+			"(* src/core/build_target.go: the BuildTargetState iota block, in declaration order (its numeric order) *)\n" +
+			"Inductive gstate := " + strings.Join(gnames, " | ") + ".\n" +
+			"Definition gstate_rank (s : gstate) : N :=\n  match s with\n" + strings.Join(ranks, "\n") + "\n  end%N.\n" +
+			"Definition gstates : list gstate := [" + strings.Join(gnames, "; ") + "].\n"
+		return stateDefs + cycleVisitTypes +
+			"(* BuildTarget.Dependencies / BuildTarget.BuildDependencies: the depInfo flags that keep an entry out of the result *)\n" +
+			"Definition dependencies_excl : list depflag := " + depsExcl + ".\n" +
+			"Definition build_dependencies_excl : list depflag := " + buildDepsExcl + ".\n" +
 			"(* if cond { return nil } before anything else *)\n" +
 			"Definition check_prologue : list cond := [" + strings.Join(prologue, "; ") + "].\n" +
 			"(* body of the visit closure *)\n" +
